@@ -24,8 +24,9 @@
 #define MAXREF 2
 #endif
 static const char *T0[] = {"x", "xy", "x*", "^x", "^", "x$", "$", ".", "[xy]", "[^x]", "\\<x", "x\\>", "\\<", NULL};
-static const char *T1[] = {"(x)", "(x)(y)", "(x|y)", "(x)|y", "(x)?y", "(x*)(y)", "(x|y)*", "x*y*", "^(x)*", "(^|y)x", "(.)(.)", "(x)*$", "(^x|y)", "^x|y", "[x\\](y)", NULL};
-static const char **TS[] = {T0, T1};
+static const char *T1[] = {"(x)", "(x)(y)", "(x|y)", "(x)|y", "(x)?y", "(x*)(y)", "(x|y)*", "x*y*", "^(x)*", "(^|y)x", NULL};
+static const char *T2[] = {"(.)(.)", "(x)*$", "(^x|y)", "^x|y", "[x\\](y)", NULL};
+static const char **TS[] = {T0, T1, T2};
 #define CLS (SL_ASCII | SL_2B)
 
 void harness(void)
